@@ -1451,7 +1451,7 @@ impl Driver {
         if self.tables.fns.iter().any(|f| f.coq == coq) {
             return Err(format!("{} `{}`: Coq name `{}` is already used (give `as=`)", file, spec, coq));
         }
-        let info = FnInfo { key: spec.to_string(), name: name.clone(), coq, self_ty: self_ty.clone(), trait_name: trait_spec.clone(), self_kind, const_generics, assoc_params, params, mut_params, mvars, generic_names: ff.sig.generics.params.iter().filter_map(|p| if let GenericParam::Type(t) = p { Some(t.ident.to_string()) } else { None }).collect(), impl_args: impl_args.clone(), file: file.to_string(), ret, fuel: false, partial: false, panic_sites: vec![] };
+        let info = FnInfo { key: spec.to_string(), name: name.clone(), coq, self_ty: self_ty.clone(), trait_name: trait_spec.clone(), self_kind, const_generics, assoc_params, params, mut_params, mvars, generic_names: ff.sig.generics.params.iter().filter_map(|p| if let GenericParam::Type(t) = p { Some(t.ident.to_string()) } else { None }).collect(), impl_args: impl_args.clone(), file: file.to_string(), ret, fuel: false, partial: false, usize_w: false, panic_sites: vec![] };
         self.tables.fns.push(info);
         let idx = self.tables.fns.len() - 1;
         self.jobs.push(FnJob { file: file.to_string(), self_ty, find_self_ty, trait_spec, name, info_idx: idx, module, inst: inst_map });
@@ -1491,7 +1491,7 @@ impl Driver {
         let (ty, ex, l1, l2) = found[0];
         let mvars = self.mvars_of(quote::ToTokens::to_token_stream(ex), None, file);
         let ty = self.conv(ty, &BTreeSet::new(), st.as_deref(), None)?;
-        let mut tr = Tr { t: &self.tables, self_ty: st.clone(), ret_ty: ty.clone(), mut_self: false, counter: BTreeMap::new(), mut_methods: BTreeSet::new(), generic_tys: BTreeSet::new(), subst: BTreeMap::new(), fuel: false, partial: false, needs_partial: false, assoc_override: std::cell::RefCell::new(None), panic_sites: BTreeSet::new(), slice_names: std::cell::RefCell::new(BTreeSet::new()), needs_fuel: false, unwrap_retry: false, fuel_var: String::new(), fuel_names: BTreeSet::new(), mutarg_names: BTreeSet::new(), mut_params: vec![], ret_coq: String::new(), loops: vec![], gen: None, fn_assigned: BTreeSet::new(), cur_file: file.to_string(), fn_coq: String::new(), loop_counter: 0, aux_defs: vec![], turbofish_types: None, inst_traits: BTreeMap::new(), self_coq: String::new(), mut_param_coq: vec![] };
+        let mut tr = Tr { t: &self.tables, self_ty: st.clone(), ret_ty: ty.clone(), mut_self: false, counter: BTreeMap::new(), mut_methods: BTreeSet::new(), generic_tys: BTreeSet::new(), subst: BTreeMap::new(), fuel: false, partial: false, needs_partial: false, usize_w: std::cell::Cell::new(false), assoc_override: std::cell::RefCell::new(None), panic_sites: BTreeSet::new(), slice_names: std::cell::RefCell::new(BTreeSet::new()), needs_fuel: false, unwrap_retry: false, fuel_var: String::new(), fuel_names: BTreeSet::new(), mutarg_names: BTreeSet::new(), mut_params: vec![], ret_coq: String::new(), loops: vec![], gen: None, fn_assigned: BTreeSet::new(), cur_file: file.to_string(), fn_coq: String::new(), loop_counter: 0, aux_defs: vec![], turbofish_types: None, inst_traits: BTreeMap::new(), self_coq: String::new(), mut_param_coq: vec![] };
         let mut cenv = Env::default();
         let cbinders = self.mvar_binders(&mvars, &mut tr, &mut cenv)?;
         let v = tr.pure(ex, &cenv, Some(&ty)).map_err(|e| format!("{} const `{}`: {}", file, spec, e))?;
@@ -1512,12 +1512,12 @@ impl Driver {
     }
 
     /// returns the generated text and the mode it was translated in (0 total, 1 partial: `option`, None = panic; 2 fuelled)
-    fn translate_fn(&self, job: &FnJob) -> R<(String, u8, Vec<String>)> {
+    fn translate_fn(&self, job: &FnJob) -> R<(String, u8, Vec<String>, bool)> {
         let info = &self.tables.fns[job.info_idx];
         let mut mode: u8 = if info.fuel { 2 } else if info.partial { 1 } else { 0 };
         loop {
             match self.translate_fn_with(job, mode) {
-                Ok((s, sites)) => return Ok((s, mode, sites)),
+                Ok((s, sites, uw)) => return Ok((s, mode, sites, uw)),
                 Err((e, need)) => {
                     if need > mode {
                         mode = need;
@@ -1529,7 +1529,7 @@ impl Driver {
         }
     }
 
-    fn translate_fn_with(&self, job: &FnJob, mode: u8) -> std::result::Result<(String, Vec<String>), (String, u8)> {
+    fn translate_fn_with(&self, job: &FnJob, mode: u8) -> std::result::Result<(String, Vec<String>, bool), (String, u8)> {
         let fuel = mode == 2;
         let nf = |e: String| (e, 0u8);
         let src = &self.sources[&job.file];
@@ -1588,6 +1588,7 @@ impl Driver {
             fuel,
             partial: mode >= 1,
             needs_partial: false,
+            usize_w: std::cell::Cell::new(false),
             assoc_override: std::cell::RefCell::new(None),
             panic_sites: BTreeSet::new(),
             slice_names: std::cell::RefCell::new(BTreeSet::new()),
@@ -1759,16 +1760,31 @@ impl Driver {
         } else if mode == 1 {
             writeln!(out, "(* can panic ({}): None = panic *)", sites.join(", ")).unwrap();
         }
+        let uw = tr.usize_w.get();
+        if uw {
+            writeln!(out, "(* depends on the width of usize (checked_* / saturating_* on usize): implicit {{U__ : Casts.UsizeW}} *)").unwrap();
+        }
         for a in tr.aux_defs.iter() {
-            out.push_str(&indent0(a));
+            let a = if uw {
+                // `Fixpoint name (..` -> `Fixpoint name {U__ : Casts.UsizeW} (..`
+                let mut it = a.splitn(3, ' ');
+                match (it.next(), it.next(), it.next()) {
+                    (Some(kw), Some(nm), Some(rest)) if kw == "Fixpoint" || kw == "Definition" => format!("{} {} {{U__ : Casts.UsizeW}} {}", kw, nm, rest),
+                    _ => a.clone(),
+                }
+            } else {
+                a.clone()
+            };
+            out.push_str(&indent0(&a));
             out.push('\n');
         }
         let full_ret = if mode >= 1 { format!("option {}", ret_coq) } else { ret_coq };
+        let binders = if uw { format!(" {{U__ : Casts.UsizeW}}{}", binders) } else { binders };
         writeln!(out, "Definition {}{} : {} :=", info.coq, binders, full_ret).unwrap();
         out.push_str(&indent(&body));
         out.push_str(".\n");
         writeln!(out, "#[global] Hint Unfold {} : src.", info.coq).unwrap();
-        Ok((out, sites))
+        Ok((out, sites, tr.usize_w.get()))
     }
 
     fn emit_adt(&self, name: &str) -> R<String> {
@@ -2121,7 +2137,7 @@ fn main() {
             enum Out {
                 Text(String),
                 Err(String),
-                Fn(String, usize, u8, Vec<String>),
+                Fn(String, usize, u8, Vec<String>, bool),
             }
             let out = match &d.modules[mi].decls[di] {
                 Decl::Adt(n) => match d.emit_adt(n) {
@@ -2132,7 +2148,7 @@ fn main() {
                 Decl::Fn(j) => {
                     let job = &d.jobs[*j];
                     match d.translate_fn(job) {
-                        Ok((s, mode, sites)) => Out::Fn(s, job.info_idx, mode, sites),
+                        Ok((s, mode, sites, uw)) => Out::Fn(s, job.info_idx, mode, sites, uw),
                         Err(e) => Out::Err(format!("{} `{}`: {}", job.file, d.tables.fns[job.info_idx].key, e)),
                     }
                 }
@@ -2140,8 +2156,9 @@ fn main() {
             match out {
                 Out::Text(s) => body.push_str(&s),
                 Out::Err(e) => errors.push(e),
-                Out::Fn(s, idx, mode, sites) => {
+                Out::Fn(s, idx, mode, sites, uw) => {
                     body.push_str(&s);
+                    d.tables.fns[idx].usize_w = uw;
                     d.tables.fns[idx].fuel = mode == 2;
                     d.tables.fns[idx].partial = mode == 1;
                     d.tables.fns[idx].panic_sites = sites;
